@@ -3,9 +3,11 @@
   int32.go … comparable.go by harness/cmd/gen_search on every run: the twelve binary searches as
   the code states them now (Go `int` as `Int`, a slice index outside the slice as an error, every
   `goto loop` consuming fuel).  The translation itself establishes that the searches look at keys
-  only through `<`/`>` (builtin types) or `Less` (Comparable) — the parameter `lt`.  The theorems
-  say that for EVERY comparison `lt` (no order axioms needed), key and slice, each translated
-  search raises no index panic, terminates within `len + 1` jumps and returns exactly what the
+  only through `<`/`>` (builtin types) or `Less` (Comparable) — the parameter `lt`.  Go's `int` is translated
+  as the 64-bit two's complement integer (`w64` wraps every + - *), so the classical overflow of
+  `(lo + hi) >> 1` is in the translation; the theorems exclude it by `len(values) < 2^62` (a slice of
+  2^62 keys does not fit in any address space Go supports).  They say that for EVERY comparison `lt`
+  (no order axioms needed), key and slice below that length, each translated search raises no index panic, terminates within `len + 1` jumps and returns exactly what the
   model's `searchGE`/`searchLE` (on which C01, C02, C08, C11 are proved) returns.
 -/
 import Gobptree.Proofs.GenSearch
@@ -42,11 +44,11 @@ theorem C11_comparable_searchLE : GenLEEq (K := K) Cmp.searchLE := by gen_le_pro
     Comparable search returns the lower-bound position (clamped to the last index), having used
     nothing but `Less` -/
 theorem C11_comparable_searchGE_spec (lt : K → K → Bool) (h : SWO lt) (key : K) (vs : List K)
-    (hs : Sorted lt vs) :
+    (hs : Sorted lt vs) (hlen : vs.length < 2 ^ 62) :
     ∃ r : Nat, Cmp.searchGE lt key vs = .ok (r : Int) ∧
       (∀ i (hi : i < vs.length), i < r → lt vs[i] key = true) ∧
       (∀ (hr : r + 1 < vs.length), lt (vs[r]'(by omega)) key = false) :=
-  ⟨searchGE lt key vs, C11_comparable_searchGE lt key vs, searchGE_spec h key vs hs⟩
+  ⟨searchGE lt key vs, C11_comparable_searchGE lt key vs hlen, searchGE_spec h key vs hs⟩
 
 /-- the statements are not vacuous: a concrete run of the translated code -/
 example : Int64.searchGE (fun a b : Nat => decide (a < b)) 7 [1, 3, 7, 9, 11] = .ok 2 := by rfl
